@@ -476,29 +476,26 @@ Section Run.
     | IFail => PFail | IFatal => PFatal | IRaise e => PRaise e | IOutOfFuel => POutOfFuel
     end.
 
-  (* what happens after parseImpl succeeded: wrap the tokens, run the parse actions (the position is p' whatever they do) *)
+  (* the parse actions of an element, in order; the position is p' whatever they do *)
+  Fixpoint act_loop (a : pattrs) (loc : nat) (p' : pos) (l : list N) (r : pr) (eff : list pyv) : outcome :=
+    match l with
+    | [] => POk p' r eff
+    | fn :: rest =>
+        match act fn src loc r with
+        | ARNone => act_loop a loc p' rest r eff
+        | AREffect v => act_loop a loc p' rest r (eff ++ [v])
+        | ARVal v =>
+            let aslist := a_save_as_list a && match v with PVList _ => true | _ => false end in
+            act_loop a loc p' rest (wrap (RVal v) (a_rname a) aslist (a_modal a)) eff
+        | ARRaise ex => PRaise ex
+        | ARParseFail => PFail         (* IndexError inside an action becomes a ParseException *)
+        end
+    end.
+
+  (* what happens after parseImpl succeeded: wrap the tokens, run the parse actions *)
   Definition finish_with (doact : bool) (a : pattrs) (loc : nat) (p' : pos) (x : raw) (eff : list pyv) : outcome :=
     let r := wrap x (a_rname a) (a_save_as_list a) (a_modal a) in
-    match a_actions a with
-    | [] => POk p' r eff
-    | acts =>
-        if doact then
-          (fix go (l : list N) (r : pr) (eff : list pyv) : outcome :=
-             match l with
-             | [] => POk p' r eff
-             | fn :: rest =>
-                 match act fn src loc r with
-                 | ARNone => go rest r eff
-                 | AREffect v => go rest r (eff ++ [v])
-                 | ARVal v =>
-                     let aslist := a_save_as_list a && match v with PVList _ => true | _ => false end in
-                     go rest (wrap (RVal v) (a_rname a) aslist (a_modal a)) eff
-                 | ARRaise ex => PRaise ex
-                 | ARParseFail => PFail         (* IndexError inside an action becomes a ParseException *)
-                 end
-             end) acts r eff
-        else POk p' r eff
-    end.
+    if doact then act_loop a loc p' (a_actions a) r eff else POk p' r eff.
 
   (* the loops of the combinators, parametrised by the recursive call [sub e p callpre] and by [finish] *)
   Fixpoint and_loop (sub : pexpr -> pos -> bool -> outcome) (finish : pos -> raw -> list pyv -> outcome)
